@@ -1,5 +1,5 @@
 """C12 — topology-aware policy property checked on resource-manager histories (see DESIGN.md)."""
-from vlib import core, tarun
+from vlib import core, tarun, barun
 
 LEVEL = "proof"
 
@@ -11,6 +11,8 @@ def run(res):
     res.assumptions += ["pool and CPU choices of the policy are oracles read off the implementation's grants (validity checked by the guarded model step)",
                         "balloons-policy half of this property: see DESIGN.md (covered by the C02 harness where built)"]
     tarun.run(res, "C12:", cfgchanges=True)
+    # balloons half: opted-out containers are told no (different) memory nodes
+    barun.run(res, "C12:", cfgchanges=True)
     res.samples += [f"theorem {n}" for n in names[:30]]
 
 
